@@ -46,6 +46,15 @@ def level(plan, i, action):
         if kind == "G":   # continue in a new greenlet (its parent is the current one)
             gr = greenlet.greenlet(level)
             return gr.switch(plan, i + 1, action)
+        if kind == "D":   # continue in a greenlet whose parent has already finished (dead parent)
+            box = {}
+
+            def a_body():
+                box["B"] = greenlet.greenlet(level)   # parent = the greenlet running a_body
+                return None
+            a = greenlet.greenlet(a_body)
+            a.switch()                                # a_body returns: its greenlet is dead, B not started yet
+            return box["B"].switch(plan, i + 1, action)
         raise AssertionError(kind)
     finally:
         SH.pop()
@@ -131,7 +140,7 @@ def check_all():
 
 def run_plan(req):
     plan = req["plan"]
-    if "G" in plan and greenlet is None:
+    if ("G" in plan or "D" in plan) and greenlet is None:
         return {"skipped": "no greenlet"}
     del SH[:]
     try:
